@@ -313,6 +313,42 @@ CHECKS = {
     ),
 }
 
+# sentences appended to the level text (extensions made after the seeded-change waves)
+EXTRA = {
+    "C03": " Also: every ordered pair of standard (source-only) IOS entries over action x 19 addresses x "
+           "log, and the <=1-deviation pair space with protocol_nr / port_nr on.",
+    "C04": " Also: standard ACLs (every list of <=3, thorough 4, of 9 source-only items, flat/numbered, "
+           "with and without the nc_wildcard skip), lists of <=3 with the numeric switches on, and "
+           "non-contiguous sources among plain ones.",
+    "C05": " The configured limit is driven through every place where a mask is read (Address, Ace "
+           "source/destination, AceGroup, Acl flat/grouped/standard, AddressAg, AddrGroup text and items, "
+           "acls/aces/addrgroups incl. attached group members) for limits {0,1,2,4,16,17,20,30} x masks "
+           "needing {0,1,2,3,5,17,18} bits: accepted iff k <= limit. Address histories also attach "
+           "group members and re-point the address.",
+    "C06": " Also: every port number that has a name in any table, and every name, on source and "
+           "destination side through Ace / AceGroup / Acl on asa, ios (4 versions) and nxos (4 versions), "
+           "names and numbers.",
+    "C07": " Bounds now <=4 (quick) / <=5 (thorough) sections; ACL names beginning with a type keyword; "
+           "NX-OS members without sequence numbers incl. a non-contiguous one; 9 keyword-option settings "
+           "(switches, versions, max_ncwb, three group_by values) must not change what is extracted.",
+    "C09": " Names chosen by range_ports()/range_protocols() are checked the same way on all three "
+           "platforms.",
+    "C11": " Also: standard entries and ACLs (8 source-only lines, lists <=3/4, three skip arguments) "
+           "and pairs / ACLs with protocol_nr / port_nr on.",
+    "C13": " Also the complete family of all masks over a 5-bit (quick) / 7-bit (thorough) window x "
+           "tail {0,3} x 2 bases - every ordered pair - and, in thorough, every spelling x spelling "
+           "for every pair of the alphabet.",
+    "C15": " Also: 9 heading markers containing regular-expression metacharacters (each with a remark "
+           "a pattern reading would match), 4 non-default indents, and the block structure predicted "
+           "from the item list.",
+    "C16": " Also: every class built with a non-default max_ncwb (0, 4, 20).",
+    "C18": " range_protocols templates include a port on one side only.",
+    "C19": " Sequence-numbered lines (dense numbering 10, 11, ...) at every call site: quick "
+           "alternates, thorough runs both.",
+    "C20": " Also: 35 arbitrary texts in each text-valued keyword option (group_by, indent, version, "
+           "names, name, note) of 9 entry points.",
+}
+
 NOT_BUILT = "check not built yet (work in progress, see DESIGN.md section 8 build order)"
 
 
@@ -323,6 +359,7 @@ def main():
         if cid not in CHECKS:
             continue
         cat, tech, text, note, ref = CHECKS[cid]
+        text += EXTRA.get(cid, "")
         checks.append(dict(
             property_id=cid,
             quick_cmd=f"./vcheck {cid} --tier quick",
